@@ -4,6 +4,7 @@ import (
 	"encoding/asn1"
 
 	"github.com/wokdav/gopki/generator/cert"
+	"github.com/wokdav/gopki/generator/config"
 )
 
 // independent civil-calendar arithmetic (Howard Hinnant's days_from_civil),
@@ -173,8 +174,20 @@ func vhDefaults() {
 	b := bases[vChoose("base", len(bases))]
 	midnight := int64(vDaysFromCivil(b[0], b[1], b[2])) * 86400
 	vClockWindow(midnight, 86400)
-	mode := vChoose("mode", 3)
+	mode := vChoose("mode", 4)
 	switch mode {
+	case 3:
+		out, err := CertValidity{Duration: "1y6m"}.toTimeStruct()
+		vAssert(err == nil, "valid duration rejected")
+		if err != nil {
+			return
+		}
+		vReach("duration-only")
+		tod := out.From.Unix() - midnight
+		vAssert(vAnd(tod >= 0, tod < 86400), "without `from`, notBefore is not the time of the run")
+		wantUntil := int64(vCivilAddDays(b[0], b[1], b[2], 1, 6, 0))*86400 + tod
+		vAssert(out.Until.Unix() == wantUntil, "notAfter is not the time of the run plus the configured duration")
+		vAssert(out.IsSet && !out.IsStatic, "a duration-only validity block must count as set (and as relative)")
 	case 0:
 		out, err := CertValidity{}.toTimeStruct()
 		vAssert(err == nil, "empty validity rejected")
@@ -236,4 +249,48 @@ func vhValidityEncoding() {
 		vAssert(der[2] == 0x17 && der[3] == 13, "a time in 1950..2049 (UTC) is not a UTCTime")
 		vAssert(der[4+12] == 'Z', "time is not written in UTC")
 	}
+}
+
+// vhValidityInherit: C04, "a certificate with no validity block of its own
+// takes its profile's validity, otherwise its own wins", end to end through
+// the v1 conversion of both files and config.Merge, for every combination of
+// {no block, from+until, until only, duration only, from+duration} in the
+// certificate and in the profile.
+func vhValidityInherit() {
+	vClockFixed(1709640000) // 2024-03-05 12:00:00 UTC
+	vLocalZone(0)
+	blocks := []CertValidity{{}, {From: "2027-01-02", Until: "2029-03-04"}, {Until: "2033-05-06"}, {Duration: "1y2m3d"}, {From: "2026-07-08", Duration: "2y"}}
+	cblocks := []CertValidity{{}, {From: "2028-02-03", Until: "2030-04-05"}, {Until: "2034-06-07"}, {Duration: "3y4m5d"}, {From: "2025-08-09", Duration: "4y"}}
+	day := func(y, m, d int) int64 { return int64(vDaysFromCivil(y, m, d)) * 86400 }
+	now := int64(1709640000)
+	type span struct{ from, until int64 }
+	pwant := []span{{now, now + day(2029, 3, 5) - day(2024, 3, 5)}, {day(2027, 1, 2), day(2029, 3, 4)}, {now, day(2033, 5, 6)},
+		{now, now + day(2025, 5, 8) - day(2024, 3, 5)}, {day(2026, 7, 8), day(2028, 7, 8)}}
+	cwant := []span{{now, now + day(2029, 3, 5) - day(2024, 3, 5)}, {day(2028, 2, 3), day(2030, 4, 5)}, {now, day(2034, 6, 7)},
+		{now, now + day(2027, 7, 10) - day(2024, 3, 5)}, {day(2025, 8, 9), day(2029, 8, 9)}}
+	pk, ck := vChoose("profileBlock", 5), vChoose("certBlock", 5)
+	prof, err := initProfile(Profile{ProfileName: "p", Version: 1, Validity: blocks[pk]})
+	vAssert(err == nil && prof != nil, "initProfile rejected a valid validity block")
+	if err != nil || prof == nil {
+		return
+	}
+	content, err := initCertificate(CertConfig{Subject: "CN=a", SerialNumber: 5, Profile: "p", Validity: cblocks[ck]})
+	vAssert(err == nil && content != nil, "initCertificate rejected a valid validity block")
+	if err != nil || content == nil {
+		return
+	}
+	merged, err := config.Merge(*prof, *content)
+	vAssert(err == nil && merged != nil, "Merge failed")
+	if err != nil || merged == nil {
+		return
+	}
+	want := cwant[ck]
+	if ck == 0 {
+		want = pwant[pk]
+		vReach("inherited")
+	} else {
+		vReach("own")
+	}
+	vAssert(merged.Validity.From.Unix() == want.from && merged.Validity.Until.Unix() == want.until,
+		"effective validity is not the certificate's own block, or the profile's when the certificate has none")
 }
